@@ -320,3 +320,143 @@ Proof.
     split; [intros _ O; apply phM_app; apply phM_insert; auto|].
     intros O. apply phM_app. apply phM_insert. auto.
 Qed.
+
+(* `if mixed_mode { parent.mixed = true }`: only the flag of the open container changes; a level
+   whose flag is set this way already holds the marker (mixed_mode => marker) *)
+Lemma flag_update_g : forall t' p k off V W (m : bool),
+  glevel t' p k off V -> hvals off V -> level_ok SOpen m k off V -> t' <> [] ->
+  exists t'' k',
+    (if m then
+       match TextTape.tget (t' ++ W) p with
+       | Some (TArray e _) => match tset (t' ++ W) p (TArray e true) with Some x => x | None => t' ++ W end
+       | Some (TObject e _) => match tset (t' ++ W) p (TObject e true) with Some x => x | None => t' ++ W end
+       | _ => t' ++ W
+       end
+     else t' ++ W) = t'' ++ W /\ length t'' = length t' /\
+    glevel t'' p k' off V /\ susp_ok k' off V /\ t'' <> [].
+Proof.
+  intros t' p k off V W m L HV LO N.
+  pose proof (level_susp _ _ _ _ LO) as HS.
+  destruct m; [|exists t', k; auto].
+  destruct LO as (C1 & C2 & C3).
+  destruct L as [V|t0 p0 k0 off0 V0 c V L0 N0 Hc HV0 HS0].
+  - exists V, KTop. split; [|split; [reflexivity|split; [apply gl_top|split; [exact HS|exact N]]]].
+    unfold TextTape.tget. destruct V as [|a V']; [congruence|]. cbn [app nth_error].
+    pose proof (hvals_head _ a HV eq_refl) as Ha.
+    destruct a; cbn in Ha; try discriminate; reflexivity.
+  - rewrite <- app_assoc. cbn [app]. unfold TextTape.tget. rewrite nth_error_mid'.
+    destruct c; cbn in Hc; try discriminate; injection Hc as ->; rewrite tset_mid.
+    + exists (t0 ++ TArray p0 true :: V), (kind_of (TArray p0 true)).
+      split; [rewrite <- app_assoc; reflexivity|].
+      split; [rewrite !app_length; reflexivity|].
+      split; [eapply gl_open; eauto|]. split; [exact I|destruct t0; discriminate].
+    + exists (t0 ++ TObject p0 true :: V), (kind_of (TObject p0 true)).
+      split; [rewrite <- app_assoc; reflexivity|].
+      split; [rewrite !app_length; reflexivity|].
+      split; [eapply gl_open; eauto|]. split; [|destruct t0; discriminate].
+      cbn [kind_of susp_ok]. apply C2; [reflexivity|exact I].
+Qed.
+
+Lemma gstep_SOpen : forall d m p t, ginv SOpen m p t -> gpost (step (mkps d SOpen m p t)).
+Proof.
+  intros d m p t (t' & -> & N & k & off & V & L & HV & LO). step_unfold.
+  destruct (skip_ws_t d) as [d0|] eqn:Hws; [|exact I].
+  destruct (skip_ws_t_len _ _ Hws) as [Nd0 _].
+  destruct d0 as [|c d1]; [congruence|].
+  rewrite len_snoc.
+  pose proof (level_susp _ _ _ _ LO) as HS.
+  destruct (beq c 125).
+  { rewrite (glevel_restore _ _ _ _ _ [TArray 0 false] L HV ltac:(congruence)).
+    destruct (restore_of k) as [st' m'] eqn:Hr. rewrite tset_last.
+    unfold tpush. rewrite <- app_assoc. cbn [app].
+    apply gpost_next.
+    destruct (close_level t' p k off V (TArray (S (length t')) false) []) as [K _]; auto.
+    { apply gv_nil. }
+    { cbn [container_end length]. f_equal. lia. }
+    { exact I. }
+    rewrite Hr in K. exact K. }
+  destruct (beq c 91).
+  { destruct m; [exact I|]. apply parse_param_g.
+    exists t'. split; [reflexivity|]. split; [exact N|]. exists k, off, V. auto. }
+  destruct (beq c 123).
+  { destruct (skip_ws_t d1) as [sc|] eqn:Hws2; [|exact I].
+    destruct (skip_ws_t_len _ _ Hws2) as [Nsc _].
+    rewrite match_b125. destruct sc as [|c2 d3]; [congruence|].
+    destruct (N.eqb c2 125).
+    - apply gpost_next. cbn [ginv]. exists t'. split; [reflexivity|]. split; [exact N|].
+      exists k, off, V. auto.
+    - rewrite tset_last. apply gpost_next. cbn [ginv].
+      exists (kind_of (TArray p false)), (S (length t')), [].
+      split; [apply (gl_open t' p k off V (TArray p false) [] L N eq_refl HV HS)|].
+      split; [apply gv_nil|]. split; [discriminate|]. split; [intros _ []|intros []]. }
+  destruct (scalar_step (c :: d1) c) as [[tok d']| | | |] eqn:Hs; try exact I.
+  pose proof (scalar_step_tok _ _ _ _ Hs) as Hk.
+  unfold tpush. rewrite <- app_assoc. cbn [app].
+  destruct (flag_update_g t' p k off V [TArray 0 false; tok] m L HV LO N)
+    as (t'' & k' & E & El & L'' & HS'' & N'').
+  rewrite E. clear E.
+  destruct (skip_ws_t d') as [d2|] eqn:Hws3; [|exact I].
+  destruct (skip_ws_t_len _ _ Hws3) as [Nd2 _].
+  destruct d2 as [|c2 d3]; [congruence|].
+  assert (Hl2 : length (t'' ++ [TArray 0 false; tok]) = S (S (length t''))) by (rewrite app_length; cbn [length]; lia).
+  rewrite Hl2.
+  destruct (Nat.ltb_spec (S (S (length t''))) 2) as [|_]; [lia|].
+  replace (S (S (length t'')) - 2) with (length t'') by lia.
+  rewrite !tset_mid.
+  destruct (beq c2 61 || beq c2 62 || beq c2 60).
+  - apply gpost_next. cbn [ginv].
+    exists (kind_of (TObject p false)), (S (length t'')), [tok].
+    split; [apply (gl_open t'' p k' off V (TObject p false) [tok] L'' N'' eq_refl HV HS'')|].
+    split; [apply gvals_one; apply is_key_leaf'; exact Hk|].
+    split; [discriminate|]. split; [discriminate|]. split; [reflexivity|].
+    split; [right; exists [], tok; repeat split; [apply gf_nil|exact Hk]|].
+    exists [], tok. split; [reflexivity|apply is_key_leaf'; exact Hk].
+  - apply gpost_next. cbn [ginv].
+    exists (kind_of (TArray p false)), (S (length t'')), [tok].
+    split; [apply (gl_open t'' p k' off V (TArray p false) [tok] L'' N'' eq_refl HV HS'')|].
+    split; [apply gvals_one; apply is_key_leaf'; exact Hk|].
+    split; [discriminate|]. split; [intros _ []|intros []].
+Qed.
+
+(* ---------- all arms together ---------- *)
+Theorem step_gpost : forall s, GInv s -> gpost (step s).
+Proof.
+  intros [d st m p t] H. unfold GInv in H. cbn [pst_ pmixed pparent ptape] in H.
+  destruct st.
+  - apply gstep_SKey; assumption.
+  - apply gstep_SKvs; assumption.
+  - apply gstep_SObjVal; assumption.
+  - apply gstep_SArrVal; assumption.
+  - apply gstep_SOpen; assumption.
+Qed.
+
+Corollary step_preserves_ginv : forall s s', GInv s -> step s = Next s' -> GInv s'.
+Proof. intros s s' H E. pose proof (step_gpost s H) as P. rewrite E in P. exact P. Qed.
+
+Lemma ploop_gfinal : forall fuel s t, GInv s -> ploop fuel s = Ok t -> gfinal t.
+Proof.
+  induction fuel as [|f IH]; intros s t H E; [discriminate|].
+  cbn [ploop] in E. pose proof (step_gpost s H) as P.
+  destruct (step s) as [s'|t1|e|x]; cbn [gpost] in P; try discriminate.
+  - eapply IH; eauto.
+  - injection E as <-. exact P.
+Qed.
+
+Lemma GInv_init : forall data, GInv (mkps data SKey false 0 []).
+Proof.
+  intros. unfold GInv. cbn. exists KTop, 0, []. split; [apply gl_top|]. split; [apply gv_nil|].
+  split; [discriminate|]. split; [discriminate|]. split; [reflexivity|]. right. apply gf_nil.
+Qed.
+
+Theorem parse_gfinal : forall input t bom, parse input = Ok (t, bom) -> gfinal t.
+Proof.
+  intros input t bom E. unfold parse in E.
+  match type of E with omap _ (ploop ?f ?s) = _ => destruct (ploop f s) as [t1| | | |] eqn:El end;
+    cbn in E; try discriminate.
+  injection E as <- _. eapply ploop_gfinal; [apply GInv_init|exact El].
+Qed.
+
+(* the bridge: every tape the text parser returns satisfies the well-formedness predicate that
+   the DOM (C17) and JSON (C16) theorems assume *)
+Theorem parse_tape_wf : forall input t bom, parse input = Ok (t, bom) -> TapeWf.tape_wf t.
+Proof. intros input t bom E. apply gfinal_tape_wf. eapply parse_gfinal; eauto. Qed.
